@@ -31,7 +31,7 @@ const maxVersion = ^uint64(0)
 var keyPool = [][]byte{{0x61}, {0x62}, {0x61, 0x62}, {0x62, 0x00}, {0x6d}, {0xff}}
 var prefixFreePool = [][]byte{{0x61}, {0x62}, {0x6d}, {0x63, 0x00}, {0xff}}
 var widePool = [][]byte{{0x61}, {0x63}, {0x64}, {0x65}, {0x66}, {0x6d}, {0x7a}}
-var verPool = []uint64{1, 2, 3, 5, 8, 13}
+var verPool = []uint64{0, 1, 2, 3, 5, 8, 13}
 
 type lsmEngine struct {
 	prop      string
@@ -43,7 +43,7 @@ type lsmEngine struct {
 }
 
 func (e *lsmEngine) Rule() string {
-	return e.prop + ": random set/del/setv/delv/get/getv sequences over 2-7 keys (prefix pairs, 00, ff; 30% of the cases a wider 7-key alphabet for nested table ranges) x 3 column families x a 6-value version pool " +
+	return e.prop + ": random set/del/setv/delv/get/getv sequences over 2-7 keys (prefix pairs, 00, ff; 30% of the cases a wider 7-key alphabet for nested table ranges) x 3 column families x a 7-value version pool (0 included) " +
 		"(values unique per write, ~12% above the value-log threshold) interleaved with rotate/flush/compact l0move|keep|drain/reopen " +
 		"on a real DB (skiplist or ART memtable per case); non-trivial = a read of a (cf,key,version<=requested) that was written in " +
 		"two or more different memtable epochs (a rotate or reopen between the writes) before the read"
